@@ -250,3 +250,36 @@ func (l *StakingLedger) WithdrawDelegatorReward(ctx context.Context, msg *distrt
 	}
 	return &distrtypes.MsgWithdrawDelegatorRewardResponse{Amount: coins}, nil
 }
+
+// LedgerSnap is a copy of the mutable ledger state.
+type LedgerSnap struct {
+	dels      []delEntry
+	allow     []allowEntry
+	starts    []startEntry
+	refCount  map[uint64]uint32
+	period    uint64
+	withdrawn int
+}
+
+func (l *StakingLedger) Snapshot() *LedgerSnap {
+	s := &LedgerSnap{period: l.Period, refCount: map[uint64]uint32{}, withdrawn: len(l.Withdrawn)}
+	s.dels = append(s.dels, l.dels...)
+	s.allow = append(s.allow, l.allow...)
+	s.starts = append(s.starts, l.starts...)
+	for k, v := range l.RefCount {
+		s.refCount[k] = v
+	}
+	return s
+}
+
+func (l *StakingLedger) Restore(s *LedgerSnap) {
+	l.dels = append([]delEntry(nil), s.dels...)
+	l.allow = append([]allowEntry(nil), s.allow...)
+	l.starts = append([]startEntry(nil), s.starts...)
+	l.RefCount = map[uint64]uint32{}
+	for k, v := range s.refCount {
+		l.RefCount[k] = v
+	}
+	l.Period = s.period
+	l.Withdrawn = l.Withdrawn[:s.withdrawn]
+}
